@@ -329,7 +329,7 @@ class RealTunnel:
         captured = {}
         saved = dict(fileio=server.io.FileIO, runonce=ssnet.runonce, stdout=sys.stdout)
 
-        def fake_runonce(handlers, mux):
+        def fake_runonce(handlers, mux, *a, **k):
             captured['h'], captured['m'] = handlers, mux
             raise Stop()
 
